@@ -21,6 +21,8 @@ from __future__ import annotations
 import atexit
 import datetime
 import ipaddress
+import os
+import time
 import unicodedata
 
 from cryptography import x509
@@ -48,7 +50,8 @@ ENGINE = "direct"
 TECHNIQUE = "differential against two strict X.509 verifiers (cryptography, OpenSSL X509_STRICT) + construction-time identity sets"
 BUDGET = {"quick": (900, 18), "thorough": (60_000, 200)}
 WORKERS = {"quick": 2, "thorough": 16}
-REQUIRED = ["issued_by_ca", "valid_now", "server_auth", "strict_verify_cryptography", "strict_verify_openssl", "names_subset", "handshake_verified", "stale_custom_cert_checked"]
+REQUIRED = ["issued_by_ca", "valid_now", "server_auth", "strict_verify_cryptography", "strict_verify_openssl", "names_subset", "handshake_verified", "stale_custom_cert_checked",
+            *[f"issued_under_tz:{z}" for z in ("UTC", "UTC-12", "UTC-5", "UTC-3:30", "UTC+5:30", "UTC+9", "UTC+12", "UTC+12:45", "UTC+14")]]
 RULE = (
     "case = (SNI class: short / random host / 63-byte label / 253-byte name / name longer than a CN / A-label / mixed case / "
     "trailing dot / underscore / IPv4 / IPv6 literal / absent with IPv4, IPv6, v4-mapped or scoped local address) x (server "
@@ -58,7 +61,8 @@ RULE = (
     "the wrong GeneralName type (IP literal as dNSName), in another letter case, or duplicated across CN and SAN) x (optional runtime "
     "history of the `certs` option through the real configure(): add / replace / remove of custom certificates registered by exact, "
     "wildcard, '*', bare-file, SAN or CN, after which the connection's SNI, server address or upstream SAN hits the spec that is "
-    "no longer configured; a still-configured spec is a control and exempt) x (CA: mitmproxy default / custom root + "
+    "no longer configured; a still-configured spec is a control and exempt) x (process time zone at issue time: UTC, UTC-12, -5, -3:30, +5:30, +9, +12, +12:45, +14, "
+    "set with TZ/tzset around the real issuance while validity is judged with the true UTC clock) x (CA: mitmproxy default / custom root + "
     "intermediate with non-SHA1 key identifier) x (observation: get_cert, or tls_start_client + in-memory strict handshake). "
     "distinct = that class tuple; non-trivial = a certificate was produced and both legs of strict verification were evaluated, "
     "or get_cert raised"
@@ -579,7 +583,7 @@ def gen_certs_history(r, pki):
     return kind, form, steps, v, False, cert_v
 
 
-def run_case(ctx, r):
+def run_case(ctx, r, tz="UTC"):
     st = state()
     pki, ta, tctx = st["pki"], st["ta"], st["tctx"]
     sni_k, sni, sock = gen_sni(r)
@@ -634,7 +638,7 @@ def run_case(ctx, r):
         "sni": sni, "sockname": sock, "server_address": list(addr) if addr else None, "upstream_class": up_k, "upstream_cert_option": use_opt,
         "upstream_subject": upstream.subject.rfc4514_string() if upstream is not None else None,
         "upstream_sans": _sans_repr(upstream),
-        "ca": ca_k, "via": "tls_start_client" if via_hook else "get_cert", "identity": ident,
+        "ca": ca_k, "via": "tls_start_client" if via_hook else "get_cert", "identity": ident, "process_tz": f"{tz} (TZ={TZS[tz]})",
     }
     sig = (sni_k, addr_k, up_k, ca_k, "hook" if via_hook else "get")
     if hist is not None:
@@ -680,6 +684,7 @@ def run_case(ctx, r):
     except Exception as e:  # noqa
         ctx.violation("not-issued-by-ca", {**w, "exc": repr(e)[:200], "leaf_issuer": leaf.issuer.rfc4514_string()})
     ctx.count("valid_now")
+    ctx.count(f"issued_under_tz:{tz}")
     now = datetime.datetime.now(datetime.timezone.utc)
     if not (leaf.not_valid_before_utc <= now <= leaf.not_valid_after_utc):
         ctx.violation("not-valid-now", {**w, "not_before": str(leaf.not_valid_before_utc), "not_after": str(leaf.not_valid_after_utc), "now": str(now)})
@@ -734,11 +739,46 @@ def run_case(ctx, r):
     return (*sig, v1, v2), True, {k: w[k] for k in ("sni", "sockname", "server_address", "upstream_class", "ca", "via", "leaf_subject", "leaf_sans")}
 
 
+# Process time zones under which certificates are issued (POSIX TZ strings, no tzdata needed; POSIX sign: 'JST-9' is UTC+9).
+TZS = {
+    "UTC": "UTC0", "UTC-12": "AAA12", "UTC-5": "EST5", "UTC-3:30": "NST3:30", "UTC+5:30": "IST-5:30", "UTC+9": "JST-9",
+    "UTC+12": "NZST-12", "UTC+12:45": "CHAST-12:45", "UTC+14": "LINT-14",
+}
+
+
+class process_tz:
+    """Run a block with the process time zone set (os.environ['TZ'] + time.tzset()); each worker is its own process."""
+
+    def __init__(self, name):
+        self.name = name
+
+    def __enter__(self):
+        self.old = os.environ.get("TZ")
+        os.environ["TZ"] = TZS[self.name]
+        time.tzset()
+
+    def __exit__(self, *a):
+        if self.old is None:
+            os.environ.pop("TZ", None)
+        else:
+            os.environ["TZ"] = self.old
+        time.tzset()
+        return False
+
+
 def run(ctx):
     try:
+        names = sorted(TZS)
+        # the CA itself is created by the real code under one of the zones, too (fixed per worker)
+        ca_tz = names[(ctx.worker * 5 + 3) % len(names)]
+        with process_tz(ca_tz):
+            state()
+        ctx.seen("ca_created_under_tz", ca_tz)
         for i in ctx.cases():
-            sig, nt, sample = run_case(ctx, ctx.rng)
-            ctx.case(sig, nt, sample)
+            tz = ctx.rng.choice(names)
+            with process_tz(tz):
+                sig, nt, sample = run_case(ctx, ctx.rng, tz)
+            ctx.case((*sig, tz), nt, {**sample, "process_tz": tz} if isinstance(sample, dict) else sample)
     finally:
         if _STATE:
             _STATE["pki"].cleanup()
